@@ -21,6 +21,14 @@ def extra_programs():
         [A(V('vb'), Call('f', [V('sa')])), If(B('<', V('sb'), C(0)), A(V('vc'), C(1)), A(V('vc'), C(2)))])
     add('inl/signed_loop', [F('f', 'u8', [('s8', 'x')], Block([A(V('r'), C(0)), While(B('&&', B('<', V('x'), C(0)), B('<', V('r'), C(3))), Block([inc('x'), inc('r')])), ret(V('r'))], decls=[('u8', 'r', C(0))]))],
         [A(V('vb'), Call('f', [V('sa')])), If(B('<', V('sb'), C(0)), inc('sb'))])
+    for op in ('<', '<=', '>', '>=', '==', '!='):
+        for rn, rhs in (('sb', lambda: V('y')), ('k', lambda: C(3)), ('z', lambda: C(0))):
+            add('inl/scmp/%s/%s' % (op, rn), [F('f', 'u8', [('s8', 'x'), ('s8', 'y')], Block([If(B(op, V('x'), rhs()), A(V('r'), C(1)), A(V('r'), C(2))), ret(V('r'))], decls=[('u8', 'r', C(0))]))],
+                [A(V('vb'), Call('f', [V('sa'), V('sb')])), If(B(op, V('sb'), C(1)), A(V('vc'), C(1)), A(V('vc'), C(2))), A(V('vd'), Call('f', [V('sb'), V('sa')]))])
+            add('inl/ucmp/%s/%s' % (op, rn), [F('f', 'u8', [('u8', 'x'), ('u8', 'y')], Block([If(B(op, V('x'), rhs()), A(V('r'), C(1)), A(V('r'), C(2))), ret(V('r'))], decls=[('u8', 'r', C(0))]))],
+                [A(V('vb'), Call('f', [V('va'), V('vc')])), If(B(op, V('vc'), C(1)), A(V('vd'), C(1)), A(V('vd'), C(2))), A(V('va'), Call('f', [V('vc'), V('vb')]))])
+        add('inl/wcmp/%s' % op, [F('f', 'u8', [('u16', 'x'), ('u16', 'y')], Block([If(B(op, V('x'), V('y')), ret(C(1))), ret(C(2))]))],
+            [A(V('vb'), Call('f', [V('wa'), V('wb')])), While(B('&&', B(op, V('wa'), V('wb')), B('<', V('vc'), C(2))), inc('vc')), A(V('vd'), Call('f', [V('wb'), V('wa')]))])
     add('inl/block_return', [F('f', 'u8', [('u8', 'a')], Block([If(V('a'), Block([A(V('vb'), C(1)), ret(C(1))])), A(V('vb'), C(2)), ret(C(0))]))], [A(V('vc'), Call('f', [V('va')]))], extra=['vb'])
     add('inl/nested_inline', [F('g', 'u8', [('u8', 'y')], Block([If(B('==', V('y'), C(3)), ret(C(7))), ret(V('y'))])),
                               F('f', 'u8', [('u8', 'x')], Block([ret(B('+', Call('g', [V('x')]), Call('g', [C(3)])))]))],
